@@ -79,6 +79,15 @@ def _env(extra=None):
 # =====================================================================================
 # __getitem__ of the three classes: C10 (generate at most once per pattern), C09 (cache invariant)
 # =====================================================================================
+def vc_symbolic_operands(H):
+    """supplier side of the contract assumed in vc_getitem for algebra.multivector(name=.., keys=..)"""
+    if getattr(H, '_symbolic_operands_done', False):
+        return
+    H._symbolic_operands_done = True
+    from contracts import access_c as A
+    A.vc_new(H, only='symbolic', order=True)
+
+
 def vc_getitem(H, cls='OperatorDict'):
     fuc = H.fn(REL, f'{cls}.__getitem__')
     gen_name = 'do_compile' if cls == 'Registry' else 'do_codegen'
@@ -400,12 +409,14 @@ def vc_filter(H):
 
 def vc_binary_chain(H, ops=None):
     vc_getitem(H, 'OperatorDict')
+    vc_symbolic_operands(H)
     vc_call_dispatch(H)
     vc_call_binary(H)
 
 
 def vc_unary_chain(H):
     vc_getitem(H, 'UnaryOperatorDict')
+    vc_symbolic_operands(H)
     vc_unary_call(H)
 
 
